@@ -219,8 +219,13 @@ func evalError(whole string) bool {
 	return pan || len(e) > 0
 }
 
+var sessionMaxDepth int // 0: the default
+
 func runSession(chunks []string) (string, string, []string) {
 	s := eval.NewState()
+	if sessionMaxDepth > 0 {
+		s.MaxDepth = sessionMaxDepth
+	}
 	var out bytes.Buffer
 	s.Out = &out
 	s.LogOut = &out
@@ -246,10 +251,17 @@ func sessions(c *Ctx, s *st) {
 		{"sq = macro(x){quote(unquote(x)*unquote(x))}", "func f(n) {\n\tsq(n+1)\n}", "println(f(2))", "println(sq(3), f(4))"},
 		{"check = macro(c){quote(if !(unquote(c)) {println(\"failed\")})}", "check = macro(c){quote(if unquote(c) {println(\"ok\")} else {println(\"failed\")})}", "n = 3", "check(n > 2)", "m = n * 2", "check(m == 6)"},
 	}
+	// what one input leaves in the function-result cache is there for the next input: a script whose last statement is only
+	// within the depth limit because the earlier loop filled the cache (12000 remembered results, depth limit 4000)
+	fixed = append(fixed, []string{"sum = func(n) { if n <= 0 { return 0 } n + self(n - 1) }", "for i = 12001 { sum(i) }", "println(\"sum:\", sum(12000))", "done = true"})
 	for k := 0; k < n+len(fixed); k++ {
 		var stm []string
+		sessionMaxDepth = 0
 		if k < len(fixed) {
 			stm = fixed[k]
+			if k == len(fixed)-1 {
+				sessionMaxDepth = 4000
+			}
 		} else {
 			stm = scriptStmts(c)
 		}
